@@ -1,3 +1,4 @@
+import BitbybitModel.Props.C06
 import BitbybitModel.Props.C09
 import BitbybitModel.Props.C12
 import BitbybitModel.Props.C13
@@ -295,6 +296,35 @@ theorem accepted_builder (resolve : List String → Nat) (types : Nat → Option
     exact ⟨e1.1, e2, e3, ranges_disjoint_of_pieces (hall st.fd e1.1) hpd⟩
   exact ⟨hfields, hinit, accepted_history resolve types d p h Γ chk _ _ hinit' hsteps⟩
 
+
+/-! ## the attribute's argument list -/
+
+/-- **default, declaration level** (C06): when the whole attribute macro (`expandDecl`: argument list, then `expand`)
+    accepts a declaration whose argument list declares a default, the program's default is that value, it fits the base
+    type, and `DEFAULT_RAW_VALUE` evaluates to it in both profiles – every bit, covered by a field or not. -/
+theorem accepted_default (resolve : List String → Nat) (types : Nat → Option CustomInfo) (cv : String → Option Nat)
+    (d : DeclTokens) (p : Program) (h : expandDecl resolve types cv d = .ok p)
+    (b : String) (dflt : DefaultSyn) (dbg : Bool) (ha : parseBitfieldArgs cv d.args = .ok (b, some dflt, dbg)) :
+    p.default = some dflt.val ∧ dflt.val < 2 ^ p.base.exposed ∧ p.debug = dbg ∧
+    ∀ (Γ : CustomEnv) (chk : Bool) (ρ : Env), eval Γ chk ρ (defaultRawValue p.base dflt.val) = .ok (C06.baseVal p.base dflt.val) := by
+  unfold expandDecl at h
+  rw [ha] at h
+  simp only at h
+  obtain ⟨hB, _⟩ := C09.expand_fields_ok resolve types _ p h
+  obtain ⟨_, _, hdef, hlt, _, _, hdbg, _⟩ := expand_inv resolve types _ p h
+  simp only [Option.map_some] at hdef
+  have hv := hlt dflt.val hdef
+  exact ⟨hdef, hv, hdbg, fun Γ chk ρ => C06.default_raw Γ chk ρ p.base dflt.val hB hv⟩
+
+/-- without a declared default there is none: no `DEFAULT`, no `Default` impl (C06, C17) -/
+theorem accepted_no_default (resolve : List String → Nat) (types : Nat → Option CustomInfo) (cv : String → Option Nat)
+    (d : DeclTokens) (p : Program) (h : expandDecl resolve types cv d = .ok p)
+    (b : String) (dbg : Bool) (ha : parseBitfieldArgs cv d.args = .ok (b, none, dbg)) : p.default = none := by
+  unfold expandDecl at h
+  rw [ha] at h
+  simp only at h
+  obtain ⟨_, _, hdef, _⟩ := expand_inv resolve types _ p h
+  simpa using hdef
 
 /-! non-vacuity: a concrete declaration (`#[bitfield(u32)] struct T { #[bits(0..=7, rw)] lo: u8, #[bits([8..=11, 20..=27], rw)] imm: u12 }`),
     given as the token trees the macro receives, is accepted, and the theorems apply to its second field -/
